@@ -217,4 +217,68 @@ def menv (c : Cfg α n) : Prog.MEnv :=
 
 def start (d : Dat α n) : Mach α n := { d := d, filter := false, cnt := 0, j := 0, i := none, junk := false }
 
+
+/-! ### 4. scan sites: which indices a bad-value loop visits, for every model size
+
+`translate/c30_scans.py` regenerates `Gen.C30Scans.sites` from engine_forward.c on every run: one record per loop that
+tests `mju_isBad(A[i])` (mj_checkPos / mj_checkVel / mj_checkAcc and the control validation of mj_fwdActuation).  The model
+dimensions (`m->nq`, `m->nv`, `m->nu`, `m->nactuator`, ...) are independent numbers: with ball / free joints nq ≠ nv, with
+multi-input actuators (so3, pid, dcmotor) nu ≠ nactuator.  `Sizes` assigns a value to every size expression; a site
+visits every entry of its array for ALL assignments exactly when its bound is, textually, the declared length. -/
+
+structure ScanSite where
+  func : String                 -- enclosing function
+  array : String                -- `d->qpos`, ..., or `local ctrl` (stack copy of the controls)
+  declared : String             -- declared element count of the array (mjxmacro.h / the stack allocation)
+  start : Nat                   -- initial value of the loop counter
+  bound : String                -- loop bound while nothing is filtered
+  filter : Option String        -- the sleep-filter flag, when the bound is `flag ? filterBound : bound`
+  filterBound : Option String
+  index : String                -- `direct`, or the definition of the subscript (`i = flag ? d->dof_awake_ind[j] : j`)
+  warn : String                 -- enumerator passed to mj_warning
+  zeroCount : Option String     -- count of `mju_zero(array, count)` in the reaction
+  exit : String                 -- `return` | `break`
+deriving Repr, DecidableEq
+
+/-- a value for every size expression (`m->nu`, `m->nactuator`, ...) -/
+abbrev Sizes := String → Nat
+
+/-- indices visited by the unfiltered loop of a site under a size assignment -/
+def ScanSite.visited (s : ScanSite) (sz : Sizes) : List Nat := List.range' s.start (sz s.bound - s.start)
+
+/-- the site reaches every entry of its array, whatever the model dimensions are -/
+def ScanSite.covers (s : ScanSite) : Prop := ∀ sz : Sizes, ∀ i, i < sz s.declared → i ∈ s.visited sz
+
+/-- the syntactic condition the generated table is checked against -/
+def ScanSite.wellBounded (s : ScanSite) : Bool := s.start == 0 && s.bound == s.declared
+
+/-! ### 5. the control validation of mj_fwdActuation on the local copy `ctrl[0 .. nu)`
+
+after the per-actuator copy (`mju_copy(ctrl + adr, d->ctrl + adr, ctrlnum)`) and the clamp:
+`for (i = 0; i < BOUND; i++) if (mju_isBad(ctrl[i])) { mj_warning(d, mjWARN_BADCTRL, i); mju_zero(ctrl, ZCOUNT); break; }`
+with BOUND / ZCOUNT the values of the size expressions of the generated site. -/
+
+structure CtrlOut (α : Type) where
+  fired : Option Nat        -- index passed to mj_warning (lastinfo), `none`: no warning
+  ctrl : List α             -- the local controls used by the rest of mj_fwdActuation
+  oob : Bool                -- the loop read past the end of the array (bound > length)
+deriving Repr
+
+/-- first index below `bound` whose entry is bad; entries past the end of the list are reported separately -/
+def firstBadBelow {α : Type} (isBad : α → Bool) (v : List α) (bound : Nat) : Option Nat :=
+  (List.range bound).find? (fun i => match v[i]? with | some x => isBad x | none => false)
+
+/-- `mju_zero(ctrl, k)` -/
+def zeroFirst {α : Type} (zero : α) (k : Nat) (v : List α) : List α :=
+  v.mapIdx (fun i x => if i < k then zero else x)
+
+def ctrlScan {α : Type} (isBad : α → Bool) (zero : α) (bound zcount : Nat) (v : List α) : CtrlOut α :=
+  match firstBadBelow isBad v bound with
+  | none => { fired := none, ctrl := v, oob := decide (v.length < bound) }
+  | some i => { fired := some i, ctrl := zeroFirst zero zcount v, oob := decide (v.length < i) }
+
+/-- the scan of a generated site under a size assignment (`none`: the site zeroes nothing) -/
+def ScanSite.runCtrl {α : Type} (s : ScanSite) (sz : Sizes) (isBad : α → Bool) (zero : α) (v : List α) : CtrlOut α :=
+  ctrlScan isBad zero (sz s.bound) (match s.zeroCount with | some z => sz z | none => 0) v
+
 end MjProof.BadCheck
